@@ -166,6 +166,10 @@ template<> struct Mem<4>{ template<class V,class T> static void ptrs(V& v,T** p)
 static const char* const XYZW[4]={"x","y","z","w"};
 
 // make_* dispatch (the pointer builders exist for the default qualifier only)
+// the pointer builders take a T const*: the source is only promised the alignment of a T, so the arrays handed to them start at an
+// address that is NOT 16-byte aligned (an implementation that loads whole SIMD registers from the pointer must use unaligned loads)
+template<class T> static inline T* t_aligned_only(T* a){ return (((uintptr_t)a & 15)==0)? a+1 : a; }
+
 template<int L> struct MkV;
 template<> struct MkV<2>{ template<class T> static glm::vec<2,T,glm::defaultp> ptr(const T* p){ return glm::make_vec2(p); } };
 template<> struct MkV<3>{ template<class T> static glm::vec<3,T,glm::defaultp> ptr(const T* p){ return glm::make_vec3(p); } };
@@ -249,7 +253,7 @@ template<int L,class T,int QI> static void vec_facts(const u64* raw,vf::Ctx& c){
 	{ V r=MkS<L>::same(*cv); memcpy((void*)got,(const void*)&r,L*sizeof(T)); cmp(c,P,"make_vecL(vecL):changed",got,tg[3],L); }
 	if constexpr(QI==DEFAULT_QI && L>=2){ if(vp_ok){
 		// object -> raw array (as many T as the object occupies, so the builder's memcpy stays inside it) -> object
-		enum { NA=sizeof(V)/sizeof(T) + 4 }; T arr[NA]; memset((void*)arr,0,sizeof arr); memcpy((void*)arr,(const void*)glm::value_ptr(*cv),sizeof(V)); const T* ap=hide((const T*)arr);
+		enum { NA=sizeof(V)/sizeof(T) + 4 }; T arr[NA+1]; memset((void*)arr,0,sizeof arr); T* base=t_aligned_only(arr); memcpy((void*)base,(const void*)glm::value_ptr(*cv),sizeof(V)); const T* ap=hide((const T*)base);
 		glm::vec<L,T,glm::defaultp> r=MkV<L>::ptr(ap); const T* rp=glm::value_ptr(r); for(int i=0;i<L;i++) got[i]=rp[i];
 		cmp(c,P,"make_vecL(ptr):round-trip-changed",got,tg[3],L);
 	} }
@@ -308,7 +312,7 @@ template<int C,int R,class T,int QI> static void mat_facts(const u64* raw,vf::Ct
 	for(int cc=0;cc<C;cc++) for(int r=0;r<R;r++) got[cc*R+r]=(*cm)[(LT)cc][(LT)r];
 	cmp(c,P,"write-bytes:m[c][r]-mismatch",got,tg[2],N);
 	if constexpr(QI==DEFAULT_QI){ if(vp_ok){
-		enum { NA=sizeof(M)/sizeof(T) + 8 }; T arr[NA]; memset((void*)arr,0,sizeof arr); memcpy((void*)arr,(const void*)glm::value_ptr(*cm),sizeof(M)); const T* ap=hide((const T*)arr);
+		enum { NA=sizeof(M)/sizeof(T) + 8 }; T arr[NA+1]; memset((void*)arr,0,sizeof arr); T* base=t_aligned_only(arr); memcpy((void*)base,(const void*)glm::value_ptr(*cm),sizeof(M)); const T* ap=hide((const T*)base);
 		{ glm::mat<C,R,T,glm::defaultp> r=MkM<C,R>::ptr(ap); for(int cc=0;cc<C;cc++) for(int rr=0;rr<R;rr++) got[cc*R+rr]=r[(LT)cc][(LT)rr];
 		  cmp(c,P,"make_matCxR(ptr):round-trip-changed",got,tg[2],N); }
 		if constexpr(C==R){ glm::mat<C,R,T,glm::defaultp> r=MkSq<C>::ptr(ap); for(int cc=0;cc<C;cc++) for(int rr=0;rr<R;rr++) got[cc*R+rr]=r[(LT)cc][(LT)rr];
@@ -361,7 +365,7 @@ template<class T,int QI> static void qua_facts(const u64* raw,vf::Ctx& c){
 	got[QX]=cq->x; got[QY]=cq->y; got[QZ]=cq->z; got[QW]=cq->w;
 	cmp(c,P,"write-bytes:read-member:not-configured-order",got,tg[3],4);
 	if constexpr(QI==DEFAULT_QI){ if(vp_ok){
-		enum { NA=sizeof(QT)/sizeof(T) + 4 }; T arr[NA]; memset((void*)arr,0,sizeof arr); memcpy((void*)arr,(const void*)glm::value_ptr(*cq),sizeof(QT)); const T* ap=hide((const T*)arr);
+		enum { NA=sizeof(QT)/sizeof(T) + 4 }; T arr[NA+1]; memset((void*)arr,0,sizeof arr); T* base=t_aligned_only(arr); memcpy((void*)base,(const void*)glm::value_ptr(*cq),sizeof(QT)); const T* ap=hide((const T*)base);
 		glm::qua<T,glm::defaultp> r=glm::make_quat(ap); got[QX]=r.x; got[QY]=r.y; got[QZ]=r.z; got[QW]=r.w;
 		cmp(c,P,"make_quat(ptr):round-trip-changed",got,tg[3],4);
 	} }
